@@ -39,7 +39,7 @@ namespace xtl
         template <class T1, class B1>
         constexpr xmasked_value(T1&& value, B1&& flag);
 
-        template <class T1>
+        template <class T1, XTL_DISALLOW(std::is_same<std::decay_t<T1>, xmasked_value<T, B>>)>
         constexpr xmasked_value(T1&& value);
 
         explicit constexpr xmasked_value();
@@ -118,7 +118,7 @@ namespace xtl
     }
 
     template <class T, class B>
-    template <class T1>
+    template <class T1, check_disallow<std::is_same<std::decay_t<T1>, xmasked_value<T, B>>>>
     inline constexpr xmasked_value<T, B>::xmasked_value(T1&& value)
         : m_value(std::forward<T1>(value)), m_visible(true)
     {
